@@ -426,3 +426,61 @@ def bath_function_parameters(cx, kind, units):
         want = m.convert_energy_2_current_u(vals["reorg"])
     if got is not None:
         cx.prove_eq("reorganisation_energy_read_back", got, want, tol=1e-9)
+
+
+@harness("C05", "mixed_context_nesting",
+         quick=[dict(maxdepth=3)], thorough=[dict(maxdepth=4)],
+         functions=[F_M + ":length_units.__enter__", F_M + ":length_units.__exit__",
+                    F_M + ":energy_units.__enter__", F_M + ":energy_units.__exit__",
+                    F_M + ":Manager.set_current_units", F_M + ":Manager.unset_current_units"],
+         bound="every well-nested program of <=3 (thorough 4) contexts drawn from {energy_units('1/cm'), "
+               "energy_units('eV'), length_units('nm'), length_units('Bohr')} with an exception raised at any depth or "
+               "not at all: inside each block its own unit type has the requested units and the other type is "
+               "untouched; after each block, normal or exceptional, both unit types are back",
+         out="threads")
+def mixed_context_nesting(cx, maxdepth):
+    import itertools
+    import quantarhei as qr
+    from quantarhei.core.managers import Manager
+    m = Manager()
+    alphabet = [("energy", "1/cm"), ("energy", "eV"), ("length", "nm"), ("length", "Bohr")]
+    mk = dict(energy=qr.energy_units, length=qr.length_units)
+
+    def run(prog, raise_at, depth, trace):
+        if depth == len(prog):
+            if raise_at == depth:
+                raise _Boom()
+            return
+        typ, u = prog[depth]
+        other = "length" if typ == "energy" else "energy"
+        before = (m.get_current_units("energy"), m.get_current_units("length"))
+        try:
+            with mk[typ](u):
+                cx.prove("inside%s" % trace, m.get_current_units(typ) == u)
+                cx.prove("other_type_untouched%s" % trace,
+                         m.get_current_units(other) == before[0 if other == "energy" else 1])
+                if raise_at == depth:
+                    raise _Boom()
+                run(prog, raise_at, depth + 1, trace + "." + u)
+                cx.prove("inner_restored%s" % trace, m.get_current_units(typ) == u)
+        except _Boom:
+            pass
+        cx.prove("restored%s" % trace, (m.get_current_units("energy"), m.get_current_units("length")) == before)
+        if raise_at is not None and depth > 0 and raise_at >= depth:
+            raise _Boom()
+    n = 0
+    for depth in range(1, maxdepth + 1):
+        for prog in itertools.product(alphabet, repeat=depth):
+            if all(t == "energy" for t, _ in prog):
+                continue        # covered by context_nesting
+            for raise_at in [None] + list(range(depth + 1)):
+                try:
+                    run(list(prog), raise_at, 0, "[%s|%s]" % (",".join(u for _, u in prog), raise_at))
+                except _Boom:
+                    pass
+                except Exception as e:      # noqa: BLE001 - e.g. "Units to restore not found"
+                    cx.fail("restored[%s|%s]" % (",".join(u for _, u in prog), raise_at),
+                            "%s: %s" % (type(e).__name__, str(e)[:80]))
+                    m.set_current_units("energy", "1/fs") if False else None
+                n += 1
+    cx.note("programs: %d" % n)
